@@ -193,6 +193,14 @@ class Run(object):
                 self.known[e['id']] += 1
                 if e['id'] not in self.known_witness:
                     self.known_witness[e['id']] = {'mech': mech, 'detail': str(detail)[:600]}
+                    dump = os.environ.get('VERIF_DUMP_KNOWN_CASES')
+                    if dump:
+                        # tooling: collect one reproducing case per listed finding (to make directed cases from)
+                        os.makedirs(dump, exist_ok=True)
+                        fn = os.path.join(dump, '%s-%d.json' % (e['id'], os.getpid()))
+                        if not os.path.exists(fn):
+                            with open(fn, 'w') as f:
+                                json.dump({'id': e['id'], 'mech': mech, 'case': case}, f, default=str)
                 return 'known'
         self.nviol += 1
         key = json.dumps(mech, sort_keys=True, default=str)
@@ -308,6 +316,8 @@ def main(mod):
     nsh = args.jobs or getattr(mod, 'SHARDS', min(16, os.cpu_count() or 4))
     budgets = getattr(mod, 'BUDGET_S', {'quick': 45, 'thorough': 600})
     budget = budgets[args.tier]
+    # tooling: VERIF_BUDGET_SCALE=0.1 imitates a heavily loaded machine (to see that directed cases do not depend on the budget)
+    budget = budget * float(os.environ.get('VERIF_BUDGET_SCALE', '1') or 1)
     watchdog = budget * 3 + 120
     tmpd = tempfile.mkdtemp(prefix='verif-%s-par-' % pid.lower(), dir=scratch_base())
     modname = mod.__spec__.name if getattr(mod, '__spec__', None) else 'checks.' + pid.lower()
